@@ -139,6 +139,8 @@ def unary_ops(subsample=True):
             L.append(('rank', ax, inpl))
             L.append(('rename_long', ax, inpl))
             L.append(('rename_partial', ax, inpl))
+            L.append(('rename_swap', ax, inpl))
+            L.append(('rename_rot', ax, inpl))
         L.append(('sort', ax))
         L.append(('rev', ax))
         L.append(('rot', ax))
@@ -165,7 +167,9 @@ def binary_ops():
           ('partition', 'sample', 1), ('partition', 'observation', 1),
           ('align',), ('subs_id', 'sample'), ('subs_id', 'observation'),
           ('subs_id1', 'sample'), ('subs_id1', 'observation'),
-          ('subs', 'sample', 2, 0), ('subs', 'observation', 2, 1), ('subs', 'sample', 1, 2)]
+          ('subs', 'sample', 2, 0), ('subs', 'observation', 2, 1), ('subs', 'sample', 1, 2),
+          ('subs_wr', 'sample', 2, 0), ('subs_wr', 'observation', 1, 1),
+          ('collapse_otm', 'sample'), ('collapse_otm', 'observation'), ('align_detect',)]
     return L
 
 
@@ -273,6 +277,19 @@ def apply(op, t, m, strict=True):
         except ModelRefuse:
             raise Refuse()
         return Res(t.update_ids(dict(mp), axis=ax, strict=False, inplace=op[2]), mm, op[2])
+    if n in ('rename_swap', 'rename_rot'):
+        ax = op[1]
+        ids = m.ids(ax)
+        if len(ids) < 2:
+            raise Refuse()
+        if n == 'rename_swap':
+            mp = {ids[0]: ids[-1], ids[-1]: ids[0]}
+            strict_flag = False
+        else:
+            mp = {ids[k]: ids[(k + 1) % len(ids)] for k in range(len(ids))}
+            strict_flag = True
+        return Res(t.update_ids(dict(mp), axis=ax, strict=strict_flag, inplace=op[2]),
+                   X(lambda: m.update_ids(ax, mp, strict_flag)), op[2])
     if n == 'sort':
         ax = op[1]
         return Res(t.sort(axis=ax), X(lambda: m.sort_order(ax, sorted(m.ids(ax), key=MD.natkey))),
@@ -420,6 +437,26 @@ def apply(op, t, m, strict=True):
             raise MonitorError('subsample by id (n=1) kept %r of %r' % (got, m.ids(ax)))
         mm = m.filter_ids(ax, got)
         return Res(r, mm.remove_empty(other(ax)), False)
+    if n == 'subs_wr':
+        _, ax, depth, seed = op
+        if strict or not _ints(m) or not m.o or not m.c:
+            raise Refuse()      # judged exhaustively in C12; here it only produces states
+        return Res(t.subsample(depth, axis=ax, with_replacement=True, seed=seed), None, False)
+    if n == 'collapse_otm':
+        ax = op[1]
+        if strict:
+            raise Refuse()      # judged in C11
+        def paths(i, md):
+            for g in (i[0], i[-1], i[0]):
+                yield ([g], g)
+        return Res(t.collapse(paths, norm=False, one_to_many=True, one_to_many_mode='divide', axis=ax),
+                   None, False)
+    if n == 'align_detect':
+        if not m.o or not m.c:
+            raise Refuse()
+        oth = t.sort_order(list(t.ids())[::-1])
+        _watch('align-partner', oth)
+        return Res(t.align_to(oth), X(lambda: m.sort_order('sample', m.c[::-1])), False)
     if n == 'subs':
         _, ax, depth, seed = op
         if not _ints(m) or not m.o or not m.c:
